@@ -36,7 +36,9 @@ func H_C01_dcc() {
 	if len(line) == 33+n {
 		vCheck(vStrEq(line[:32], hx), "dcc/hashcat-line-hash-field")
 		vCheck(line[32] == ':', "dcc/hashcat-line-separator")
-		vCheck(vStrEq(lowerASCII(line[33:]), lowerASCII(user)), "dcc/hashcat-line-user-field")
+		// hashcat (mode 1100) uses the salt field as it stands: the line verifies only if it carries the lower-cased name
+		// the hash field was computed with
+		vCheck(vStrEq(line[33:], lowerASCII(user)), "dcc/hashcat-line-user-field")
 	}
 	vCover("end")
 }
@@ -47,6 +49,13 @@ func H_C01_dcc_password() {
 	nt := refMD4(refUTF16LE(cps))
 	want := refMD4(append(append([]byte{}, nt[:]...), refUTF16LE([]rune("admin"))...))
 	vCheck(DCCHashFromPassword(pw, user) == want, "dcc/from-password")
+	const digits = "0123456789abcdef"
+	hx := make([]byte, 0, 32)
+	for _, b := range want {
+		hx = append(hx, digits[b>>4], digits[b&15])
+	}
+	vCheck(vStrEq(DCCHashFromPasswordToHex(pw, user), string(hx)), "dcc/from-password-hex")
+	vCheck(vStrEq(DCCHashFromPasswordToHashcatString(pw, user), string(hx)+":admin"), "dcc/from-password-hashcat-line")
 	vCover("end")
 }
 
